@@ -27,3 +27,9 @@ struct IccTag {
     data_offset: u32,
     len: u32,
 }
+
+/// Verification hooks (`--cfg jxl_oxide_verif`).
+#[cfg(jxl_oxide_verif)]
+pub mod verif {
+    pub use super::decode::verif::*;
+}
